@@ -943,6 +943,117 @@ def _sign(o):
 EXTRA.append(_sign)
 
 
+# ---------------------------------------------------------------------------
+# utils/gen_fast_manifest.py, utils/gen_fast_metamanifest.py (C20)
+# ---------------------------------------------------------------------------
+
+def _fastgen(o):
+    gm = _src('utils/gen_fast_manifest.py')
+    mm = _src('utils/gen_fast_metamanifest.py')
+
+    def body_lines(tree, fn):
+        f = find_func(tree, fn)
+        body = f.body
+        if body and isinstance(body[0], ast.Expr) and isinstance(getattr(body[0], 'value', None), ast.Constant) \
+                and isinstance(body[0].value.value, str):
+            body = body[1:]
+        return llist(lstr(x) for st in body for x in _u(st).split('\n'))
+    for tree, fn in ((gm, 'get_manifest_entry'), (gm, 'generate_manifest_entries'), (gm, 'gen_manifest'),
+                     (mm, 'manifest_dir_generator'), (mm, 'make_toplevel'), (mm, 'gen_metamanifest')):
+        o.item(f'fg_src_{fn}', 'List (List Nat)', (lambda tree=tree, fn=fn: body_lines(tree, fn)), '[]')
+
+    def tuples_in(fn):
+        """the literal tuples of strings tested with `in` inside a function, in source order"""
+        f = find_func(gm, fn)
+        out = []
+        for n in ast.walk(f):
+            if isinstance(n, ast.Compare) and isinstance(n.ops[0], ast.In) and isinstance(n.comparators[0], ast.Tuple):
+                out.append((n.lineno, n.col_offset, [ast.literal_eval(e) for e in n.comparators[0].elts]))
+        out.sort()
+        return [t for _l, _c, t in out]
+    o.item('fg_subManifestNames', 'List (List Nat)', lambda: llist(lstr(x) for x in tuples_in('generate_manifest_entries')[0]), '[]')
+    o.item('fg_timestampNames', 'List (List Nat)', lambda: llist(lstr(x) for x in tuples_in('generate_manifest_entries')[1]), '[]')
+
+    def str_consts(fn, tree=gm):
+        f = find_func(tree, fn)
+        out = []
+        for n in ast.walk(f):
+            if isinstance(n, ast.Constant) and isinstance(n.value, (str, bytes)):
+                v = n.value if isinstance(n.value, str) else n.value.decode('latin1')
+                out.append((n.lineno, n.col_offset, v))
+        out.sort()
+        return [v for _l, _c, v in out]
+    o.item('fg_entryFormat', 'List Nat', lambda: lstr([v for v in str_consts('get_manifest_entry') if '{}' in v][0]), '[]')
+
+    def aux_slice():
+        f = find_func(gm, 'generate_manifest_entries')
+        for n in ast.walk(f):
+            if isinstance(n, ast.Subscript) and isinstance(n.slice, ast.Slice) and _u(n.value) == 'ep' and n.slice.upper is None:
+                return str(ast.literal_eval(n.slice.lower))
+        raise KeyError('ep[k:]')
+    o.item('fg_auxSliceStart', 'Nat', aux_slice, '0')
+
+    def aux_prefix():
+        f = find_func(gm, 'generate_manifest_entries')
+        for n in ast.walk(f):
+            if isinstance(n, ast.Call) and _u(n.func) == 'ep.startswith':
+                return lstr(ast.literal_eval(n.args[0]))
+        raise KeyError('ep.startswith')
+    o.item('fg_auxPrefix', 'List Nat', aux_prefix, '[]')
+
+    def carry_prefixes():
+        f = find_func(gm, 'gen_manifest')
+        out = []
+        for n in ast.walk(f):
+            if isinstance(n, ast.Call) and _u(n.func) == 'l.startswith':
+                out.append((n.lineno, n.col_offset, ast.literal_eval(n.args[0]).decode('ascii')))
+        out.sort()
+        return llist(lstr(v) for _l, _c, v in out)
+    o.item('fg_carryPrefixes', 'List (List Nat)', carry_prefixes, '[]')
+
+    def yields(iter_n):
+        """the literal directories yielded by manifest_dir_generator outside the category loop, for `iter_n == k`"""
+        f = find_func(mm, 'manifest_dir_generator')
+        out = []
+
+        def visit(stmts, active):
+            for st in stmts:
+                if isinstance(st, ast.If):
+                    t = _u(st.test)
+                    if t.startswith('iter_n == '):
+                        k = int(t.split('==')[1])
+                        visit(st.body, active and k == iter_n)
+                        # elif chain
+                        visit(st.orelse, active)
+                    else:
+                        visit(st.body, active)
+                        visit(st.orelse, active)
+                elif isinstance(st, ast.Expr) and isinstance(st.value, ast.Yield) and active:
+                    if isinstance(st.value.value, ast.Constant):
+                        out.append(st.value.value.value)
+        top = [st for st in f.body if not isinstance(st, (ast.For, ast.With))]
+        visit(top, True)
+        return llist(lstr(x) for x in out)
+    for k in (1, 2, 3, 4):
+        o.item(f'fg_batch{k}Fixed', 'List (List Nat)', (lambda k=k: yields(k)), '[]')
+
+    def toplevel_suffixes():
+        f = find_func(mm, 'make_toplevel')
+        for n in ast.walk(f):
+            if isinstance(n, ast.For) and isinstance(n.iter, ast.Tuple):
+                return llist(lstr(ast.literal_eval(e)) for e in n.iter.elts)
+        raise KeyError('suffix loop')
+    o.item('fg_toplevelSuffixes', 'List (List Nat)', toplevel_suffixes, '[]')
+    o.item('fg_prepopulated', 'List (List Nat)', lambda: llist(lstr(v) for v in str_consts('gen_metamanifest', mm) if 'IGNORE' in v), '[]')
+    o.item('fg_splitDirs', 'List (List Nat)', lambda: llist(
+        lstr(ast.literal_eval(n.args[0])) for n in sorted(
+            (n for n in ast.walk(find_func(mm, 'gen_metamanifest')) if isinstance(n, ast.Call) and _u(n.func) == 'make_toplevel'),
+            key=lambda n: n.lineno)), '[]')
+
+
+EXTRA.append(_fastgen)
+
+
 if __name__ == '__main__':
     errs = write_extracted()
     print(open(os.path.join(LEAN, 'Gemato', 'Extracted.lean')).read())
